@@ -116,6 +116,111 @@ def run_pipeline(prop, fam, tier, seed, work, jh, specdir, stats):
     stats["v_transitions"] = gen
     return cases, trace, verdicts
 
+def corrupt(ev):
+    """One recorded field of an accepted trace line changed into something no reading of the
+    specification allows; None when the line has nothing suitable.  (Binding self-test, DESIGN.md 13.5.)"""
+    e = json.loads(json.dumps(ev))
+    kind = e.get("ev")
+    out = e.get("out", {})
+    marker = {"t": "str", "s": [99, 111, 114, 114, 117, 112, 116]}
+    if kind == "Eval":
+        if out.get("o") == "val" and "r" in out:
+            out["r"] = {"t": "arr", "v": [out["r"], marker]}
+            return e
+        if out.get("o") == "undef":
+            e["out"] = {"o": "val", "r": marker}
+            return e
+        return None
+    if kind == "Lex":
+        toks = e.get("toks", [])
+        if len(toks) >= 3 and out.get("o") in ("ok", "err"):
+            del toks[len(toks) // 2]          # a token the hook reported goes missing
+            return e
+        return None
+    if kind == "Denote":
+        if out.get("o") == "val" and "r" in out:
+            out["r"] = {"t": "arr", "v": [out["r"], marker]}
+            return e
+        return None
+    if kind == "Date":
+        if e.get("fn") == "from" and "s" in out:
+            for i, c in enumerate(out["s"]):
+                if 48 <= c <= 57:
+                    out["s"][i] = 48 + (c - 48 + 1) % 10
+                    return e
+        if e.get("fn") in ("rt", "to") and "day" in out:
+            out["day"] += 1
+            return e
+        return None
+    if kind == "Num":
+        st = e["steps"][0]
+        o = st.get("out", {})
+        if st.get("fn") == "fmt" and "s" in o:
+            for i, c in enumerate(o["s"]):
+                if 48 <= c <= 57:
+                    o["s"][i] = 48 + (c - 48 + 1) % 10
+                    return e
+            return None
+        if "x" in o and st.get("fn") in ("round", "numrt", "number"):
+            o["x"]["ds"] = [(o["x"]["ds"][0] % 9) + 1] + o["x"]["ds"][1:] + [7]
+            return e
+        if "b" in o:
+            o["b"] = not o["b"]
+            return e
+        if st.get("fn") == "op" and "xe" in o:
+            o["xe"]["ds"] = [(o["xe"]["ds"][0] % 9) + 1] + o["xe"]["ds"][1:]
+            return e
+        return None
+    if kind == "EvalBytes":
+        if out.get("o") == "val":
+            e["out"] = {"o": "err", "k": "Json"}
+        elif out.get("o") == "err":
+            e["out"] = {"o": "val", "rb": [49]}
+        else:
+            return None
+        return e
+    return None
+
+def binding_selftest(fam, work, specdir, evs, verdicts, stats, rnd):
+    """Corrupts one recorded field in a sample of lines the specification accepted and requires the
+    trace specification to reject every one of them: a trace module that accepts them is not bound
+    to the code and nothing it says can be believed (infrastructure failure)."""
+    accepted = [i for i in sorted(evs) if i not in verdicts]
+    rnd.shuffle(accepted)
+    chosen = []
+    perkind = {}
+    for i in accepted:
+        k = evs[i].get("ev")
+        if perkind.get(k, 0) >= 40:
+            continue
+        c = corrupt(evs[i])
+        if c is None:
+            continue
+        perkind[k] = perkind.get(k, 0) + 1
+        chosen.append(c)
+        if len(chosen) >= 120:
+            break
+    if not chosen:
+        stats["binding_selftest"] = {"corrupted_lines": 0, "rejected": 0}
+        return
+    d = os.path.join(work, "selftest")
+    os.makedirs(d, exist_ok=True)
+    trace = os.path.join(d, "trace.ndjson")
+    with open(trace, "w") as f:
+        for c in chosen:
+            f.write(json.dumps(c) + "\n")
+    v, _, _ = validate(specdir, trace, workers=8, module=fam.get("trace_module", "TraceEval"), by_ev=fam.get("trace_by_ev"))
+    # "inc" = the specification abstains on the corrupted line (e.g. a result whose member order is open): not an
+    # acceptance, but tolerated only for a small share of the sample
+    weak = [c for c in chosen if v.get(c["id"], "ok").startswith("inc")]
+    missed = [c for c in chosen if not v.get(c["id"], "ok").startswith("no") and c not in weak]
+    stats["binding_selftest"] = {"corrupted_lines": len(chosen), "rejected": len(chosen) - len(missed) - len(weak), "abstained": len(weak), "by_event_kind": perkind}
+    if not missed and len(weak) * 4 > len(chosen):
+        missed = weak
+    if missed:
+        raise Infra("binding self-test: %d of %d corrupted trace lines were not rejected by the trace specification, e.g. %s (verdict %s)" %
+                    (len(missed), len(chosen), src_of(missed[0])[:120], v.get(missed[0]["id"], "ok")))
+
 def confirm(prop, fam, work, jh, specdir, evs, failing, cases_path=None):
     """Every disagreement is re-executed alone in a fresh process before anything is reported."""
     if not failing:
@@ -369,6 +474,8 @@ def main(argv):
             fam["files"] = [rel]
         cases, trace, verdicts = run_pipeline(prop, fam, a.tier, seed, work, jh, specdir, stats)
         evs = load_trace(trace)
+        if not a.replay:
+            binding_selftest(fam, work, specdir, evs, verdicts, stats, random.Random(seed))
         hfails = run_histories(prop, fam, a.tier, seed, work, jh, specdir, stats) if fam.get("hist") and not a.replay else []
         mine = {}
         inconclusive = skipped = 0
@@ -522,6 +629,7 @@ def main(argv):
             "api_histories": {"histories": stats.get("h_histories", 0), "events": stats.get("h_events", 0), "evals": stats.get("h_evals", 0),
                               "spec_abstained": stats.get("h_abstained", 0), "sample_history": stats.get("h_sample", [])},
             "design_model_runs": stats.get("m_runs", []),
+            "binding_selftest": stats.get("binding_selftest"),
             "replay_wall_s": stats.get("replay_s"), "validate_wall_s": stats.get("validate_s"),
         }
         if a.replay is None:
